@@ -14,11 +14,11 @@ import (
 	"path/filepath"
 	"runtime"
 	"runtime/debug"
-	"syscall"
 	"sort"
 	"strconv"
 	"strings"
 	"sync"
+	"syscall"
 	"time"
 
 	"verif/mc/explore"
@@ -55,6 +55,7 @@ type Report struct {
 	sigSeen     map[string]bool
 	deadline    time.Time
 	curIdx      int64
+	curScenario []byte
 	Tier        string `json:"-"`
 	mu          sync.Mutex
 }
@@ -198,7 +199,7 @@ func Main(h *Harness) {
 		var i, n int
 		fmt.Sscanf(*shard, "%d/%d", &i, &n)
 		quietStderr(*out + ".crash")
-		rep := runShard(h, *tier, i, n, seed)
+		rep := runShard(h, *tier, i, n, seed, *out)
 		writeJSON(*out, rep)
 	default:
 		os.Exit(parent(h, *tier, seed))
@@ -243,11 +244,38 @@ func writeJSON(path string, v any) {
 	}
 }
 
-func runShard(h *Harness, tier string, i, n int, seed int64) *Report {
+func runShard(h *Harness, tier string, i, n int, seed int64, outPath string) *Report {
 	rep := NewReport()
 	rep.Tier = tier
 	if h.Budget != nil {
 		rep.deadline = time.Now().Add(h.Budget(tier))
+	}
+	// watchdog: if the explorer shows no activity for a long real time the execution is
+	// blocked in code outside the scheduler's control (FOREIGN-BLOCK).  That is a harness
+	// limitation, never a verdict: the shard writes what it has and stops.
+	if outPath != "" {
+		go func() {
+			last, still := explore.Heartbeat.Load(), 0
+			for {
+				time.Sleep(5 * time.Second)
+				cur := explore.Heartbeat.Load()
+				if cur != last || cur == 0 {
+					last, still = cur, 0
+					continue
+				}
+				still++
+				if still >= 8 {
+					rep.Incident("FOREIGN-BLOCK")
+					buf := make([]byte, 1<<20)
+					buf = buf[:runtime.Stack(buf, true)]
+					rep.Note("FOREIGN-BLOCK in scenario " + string(rep.curScenario))
+					os.WriteFile(outPath+".foreign-block.txt", buf, 0o644)
+					rep.finalize()
+					writeJSON(outPath, rep)
+					os.Exit(0)
+				}
+			}
+		}()
 	}
 	idx := 0
 	// the seed only rotates which shard gets which residue class
@@ -267,6 +295,7 @@ func runShard(h *Harness, tier string, i, n int, seed int64) *Report {
 			return false
 		}
 		rep.Sample(sc)
+		rep.curScenario, _ = json.Marshal(sc)
 		h.Run(tier, sc, rep)
 		return true
 	})
@@ -297,12 +326,16 @@ func runShard(h *Harness, tier string, i, n int, seed int64) *Report {
 			}
 		}
 	}
+	rep.finalize()
+	return rep
+}
+
+func (rep *Report) finalize() {
 	rep.Outcomes = rep.Outcomes[:0]
 	for o := range rep.outSet {
 		rep.Outcomes = append(rep.Outcomes, o)
 	}
 	rep.States += int64(len(rep.stateSet))
-	return rep
 }
 
 func safeReplay(h *Harness, sc any, choices []int) (fs []explore.Failure) {
